@@ -66,6 +66,13 @@ pub fn gen_sess_run(check: &str, seed: u64, tier: Tier, with_probes: bool) -> Ru
         if w.chance(1, 4) {
             insert_symmetry_bias(&mut ops, &mut w);
         }
+        {
+            // (own stream) two parallel contexts over two different terms that are united later
+            let mut pr = Rng::stream(seed ^ tries as u64, "parallel-contexts");
+            if pr.chance(1, 8) {
+                insert_parallel_contexts(&mut ops, &mut pr);
+            }
+        }
         let n = pool_size(&ops);
         if n < 40 && Cc::universe_size(n, &all_terms(&ops)) <= cap {
             run.ops = ops;
@@ -102,6 +109,7 @@ pub fn gen_sess_run(check: &str, seed: u64, tier: Tier, with_probes: bool) -> Ru
         run.set("nodewise", 1);
     }
     run.set("oracle_seed", (f.next() >> 1) as i64);
+    run.set("analysis", Rng::stream(seed, "analysis").chance(1, 3) as i64);
     if tier == Tier::Thorough && f.chance(1, 2) {
         run.set("checkpoint_every_union", 1);
     }
@@ -204,6 +212,61 @@ pub fn relative_renamings(ft: &[S], fs: &[S], fresh: &[S]) -> Vec<BTreeMap<S, S>
     }
     rec(0, ft, fs, fresh, &mut Vec::new(), 0, &mut BTreeMap::new(), &mut out);
     out
+}
+
+/// Two parallel contexts `C[A]` and `C[B]` over two different two-slot terms A and B, where C also holds an
+/// asymmetric sibling over the same slots; later A = B is asserted (same slots on both sides) and one
+/// of them is made symmetric. Which of the two classes dies, whether the survivor is symmetric at that
+/// moment, and in which orientation the parents were stored all depend on the order of the steps.
+pub fn insert_parallel_contexts(ops: &mut Vec<Op>, w: &mut Rng) {
+    let (x, y): (S, S) = (0, 1);
+    let p1 = |a: S| Tm::leaf("p1", vec![a]);
+    let swap: BTreeMap<S, S> = [(x, y), (y, x)].into_iter().collect();
+    let a0 = Tm::leaf("p2", vec![x, y]);
+    let cands: Vec<Tm> = vec![
+        Tm::leaf("p3", vec![x, y, x]),
+        Tm::node("g", vec![x], vec![(vec![], p1(y))]),
+        Tm::node("b", vec![], vec![(vec![], p1(x)), (vec![], p1(y))]),
+        Tm::node("b", vec![], vec![(vec![], p1(x)), (vec![], Tm::node("u", vec![], vec![(vec![], p1(y))]))]),
+    ];
+    let bi = w.below(cands.len());
+    let mut si = w.below(cands.len());
+    if si == bi {
+        si = (si + 1) % cands.len();
+    }
+    let b0 = cands[bi].clone();
+    let sib = cands[si].clone();
+    let shape = w.below(3);
+    let ctx = |t: Tm| -> Tm {
+        let n2 = |l: Tm, r: Tm| Tm::node("b", vec![], vec![(vec![], l), (vec![], r)]);
+        match shape {
+            0 => n2(n2(t, sib.clone()), sib.clone()),
+            1 => n2(sib.clone(), n2(sib.clone(), t)),
+            _ => Tm::node("t", vec![], vec![(vec![], t), (vec![], sib.clone()), (vec![], Tm::pay("k", 1))]),
+        }
+    };
+    let a_in = if w.chance(1, 2) { a0.rename_keep_binders(&swap) } else { a0.clone() };
+    let b_in = if w.chance(1, 3) { b0.rename_keep_binders(&swap) } else { b0.clone() };
+    let sym_of = if w.chance(1, 2) { a0.clone() } else { b0.clone() };
+    let mut new_ops = vec![
+        Op::new("add").t(ctx(a_in)),
+        Op::new("add").t(ctx(b_in)),
+        Op::new("union").t(a0.clone()).t(b0.clone()).i(w.below(2) as i64),
+        Op::new("union").t(sym_of.clone()).t(sym_of.rename_keep_binders(&swap)).i(w.below(2) as i64),
+    ];
+    if w.chance(1, 2) {
+        new_ops.swap(2, 3);
+    }
+    if w.chance(1, 3) {
+        let (l, r) = (new_ops[2].t[0].clone(), new_ops[2].t[1].clone());
+        new_ops[2].t = vec![r, l];
+    }
+    // parents first (that is the order which needs the upward merge), at random places of the history
+    let mut pos = w.below(ops.len() + 1);
+    for o in new_ops {
+        ops.insert(pos, o);
+        pos = (pos + 1 + w.below(2)).min(ops.len());
+    }
 }
 
 /// Inserts, at random points of a history, several independent symmetries on one multi-slot leaf
@@ -538,12 +601,24 @@ impl Check for SessCc {
     }
 
     fn exec(&self, run: &Run) -> Outcome {
+        // a third of the runs carry the simulator's analysis (min size / depth / height): worklist
+        // entries then come in two kinds (analysis-only and full) and data changes re-queue parents
+        if run.get("analysis") != 0 {
+            self.exec_with(run, EGraph::new(crate::analysis::SimAn { p: 3, modify: false }))
+        } else {
+            self.exec_with(run, EGraph::new(()))
+        }
+    }
+}
+
+impl SessCc {
+    fn exec_with<N: Analysis<LS>>(&self, run: &Run, eg: EGraph<LS, N>) -> Outcome {
         let mut out = Outcome::default();
         let c01 = self.id == "C01";
         let c02 = self.id == "C02";
         let c08 = self.id == "C08";
         seam::apply(&run.knobs());
-        let mut s: Sess<LS, ()> = Sess::new(EGraph::new(()), run.get("naming") as u32);
+        let mut s: Sess<LS, N> = Sess::new(eg, run.get("naming") as u32);
         let n = pool_size(&run.ops);
         let mut ctx = CcCtx::new(n);
         let mut orng = Rng::stream(run.get("oracle_seed") as u64, "oracle-sampling");
@@ -649,5 +724,5 @@ impl Check for SessCc {
         let neg = out.counters.get("negative_queries").copied().unwrap_or(0);
         out.nontrivial = out.discarded.is_none() && any_change && (c08 || (pos > 0 && neg > 0));
         out
-    }
+        }
 }
